@@ -1126,9 +1126,9 @@ class Normalizer:
                     return self.nf(Term("arange", idx.args[1]))
                 if idx.op in ("lt", "le", "gt", "ge", "invert", "bitand", "bitor", "eq", "ne"):
                     return self.nf(Term("nonzero1", idx))
-            if isinstance(idx, Term) and idx.op == "arange" and len(idx.args) == 1 and isinstance(idx.args[0], Term) and idx.args[0].op not in ("dim",):
+            if isinstance(idx, Term) and idx.op == "arange" and len(idx.args) == 1 and isinstance(idx.args[0], Term):
                 return self.nf(Term("getitem", base, Term("slice", Term("const", None), idx.args[0], Term("const", None))))
-            if isinstance(idx, Term) and idx.op == "tuple" and len(idx.args) == 2 and _term_full_slice(idx.args[0]) and isinstance(idx.args[1], Term) and idx.args[1].op == "arange" and len(idx.args[1].args) == 1 and isinstance(idx.args[1].args[0], Term) and idx.args[1].args[0].op not in ("dim",):
+            if isinstance(idx, Term) and idx.op == "tuple" and len(idx.args) == 2 and _term_full_slice(idx.args[0]) and isinstance(idx.args[1], Term) and idx.args[1].op == "arange" and len(idx.args[1].args) == 1 and isinstance(idx.args[1].args[0], Term):
                 return self.nf(Term("getitem", base, Term("tuple", idx.args[0], Term("slice", Term("const", None), idx.args[1].args[0], Term("const", None)))))
             # selecting entries of an elementwise power: (x**k)[sel] = (x[sel])**k
             if isinstance(base, Term) and base.op == "pow" and len(base.args) == 2 and isinstance(base.args[1], Term) and base.args[1].op == "const" and isinstance(base.args[0], Term) and isinstance(idx, Term) and idx.op in ("lt", "le", "gt", "ge", "nonzero1", "invert", "bitand", "bitor"):
